@@ -15,6 +15,8 @@ Step requests it after logging STOP.
 Round 4: __load_state does nothing but the transplant; class-level containers
 mutated through self are state outside the instance; a local standing for a
 stored setting counts as that setting in the sticky-settings rule.
+Round 5 (hunt): a solver restored from the periodic dump of its last generation
+is finalized by the next Step (shared with C04.o).
 NOT decided: bit-equality of continued trajectories, RNG state (premise), bytes.
 """
 import ast
@@ -668,3 +670,10 @@ def forced_dump_is_unconditional(ctx):
     ctx.need(n_stop >= 1, 'Step never logs a STOP record')
     ctx.check(badp is None, 'AbstractSolver.Step#forced-dump', 'every path that logs STOP then calls self.__save_state(force=True) (%d paths)' % n_stop,
               'Step logs the STOP record without requesting the forced dump afterwards (path %s)' % (badp.describe(5) if badp else ''), g, g.node)
+
+
+@rule('C06.i', min_instances=1)
+def a_restored_stopped_solver_is_finalized(ctx):
+    """the periodic SetSaveFrequency dump of the LAST generation is written inside _Step, before Step evaluates Terminated() and calls Finalize(): restored from it, the solver is terminated but not finalized - continuing it must still log Powell's pending record and end 'not live', exactly like the uninterrupted run. Step therefore finalizes a solver it finds already terminated on entry (path rule shared with C04.o)"""
+    from .c04 import a_solver_found_stopped_is_finalized
+    a_solver_found_stopped_is_finalized(ctx)
